@@ -184,6 +184,68 @@ var menu = []opDef{
 	}},
 }
 
+// bulk operations: one call that carries many keys. A change that processes its arguments in
+// batches (and gives the lock back in between) is only visible when one call carries more keys
+// than a batch holds: 600 keys exceed every batch size up to 512 with a remainder.
+const bulkN = 600
+
+var bulkKeys = func() []string {
+	ks := make([]string, bulkN)
+	for i := range ks {
+		ks[i] = fmt.Sprintf("k%03d", i)
+	}
+	return ks
+}()
+
+func bulkInit() map[string]int {
+	m := map[string]int{"a": 1}
+	for i, k := range bulkKeys {
+		m[k] = 1000 + i
+	}
+	return m
+}
+
+var bulkMenu = []opDef{
+	{"Delete(600 keys)", func(s *kv, _ int) any { s.Delete(bulkKeys...); return nil },
+		func(m map[string]int, _ int, _ any) (bool, map[string]int) {
+			for _, k := range bulkKeys {
+				delete(m, k)
+			}
+			return true, m
+		}},
+	{"GetWithMap(600 keys)", func(s *kv, _ int) any {
+		q := make(map[string]int, bulkN)
+		for _, k := range bulkKeys {
+			q[k] = -1
+		}
+		s.GetWithMap(q)
+		found := 0
+		for _, v := range q {
+			if v != -1 {
+				found++
+			}
+		}
+		return found
+	}, func(m map[string]int, _ int, res any) (bool, map[string]int) {
+		found := 0
+		for _, k := range bulkKeys {
+			if _, ok := m[k]; ok {
+				found++
+			}
+		}
+		return res == found, m
+	}},
+	{"len(Keys)", func(s *kv, _ int) any { return len(s.Keys()) },
+		func(m map[string]int, _ int, res any) (bool, map[string]int) { return res == len(m), m }},
+	{"len(Values)", func(s *kv, _ int) any { return len(s.Values()) },
+		func(m map[string]int, _ int, res any) (bool, map[string]int) { return res == len(m), m }},
+	{"count(Range)", func(s *kv, _ int) any {
+		n := 0
+		s.Range(func(string, int) bool { n++; return true })
+		return n
+	}, func(m map[string]int, _ int, res any) (bool, map[string]int) { return res == len(m), m }},
+}
+
 // firstOnly: an enumeration stopped by the callback after one binding saw exactly one binding of
 // the map as it was at one instant (none iff the map was empty) — and gave the lock back.
 func firstOnly(m map[string]int, _ int, res any) (bool, map[string]int) {
@@ -419,9 +481,26 @@ func main() {
 			specs = append(specs, s4)
 		}
 	}
+	for i := range bulkMenu {
+		byName[bulkMenu[i].name] = &bulkMenu[i]
+	}
+	for k, p := range [][][]string{
+		{{"Delete(600 keys)"}, {"Len", "Len"}},
+		{{"Delete(600 keys)"}, {"len(Keys)"}, {"len(Values)"}},
+		{{"Delete(600 keys)"}, {"GetWithMap(600 keys)"}, {"count(Range)"}},
+		{{"GetWithMap(600 keys)"}, {"Clear"}, {"Set(a)"}},
+		{{"Delete(600 keys)"}, {"Delete(600 keys)"}, {"Has(a)", "Len"}},
+	} {
+		var names []string
+		for _, t := range p {
+			names = append(names, strings.Join(t, ","))
+		}
+		specs = append(specs, scenario(fmt.Sprintf("bulk%d/%s", k, strings.Join(names, "|")), bulkInit(), p...))
+	}
 	specs = append(specs, nanScenario())
 	sched.Main("C12", specs,
 		[]string{
+			"bulk calls: Delete / GetWithMap carrying 600 keys against Len, Keys, Values, Range, Clear on a map of 601 entries (5 scenarios): a call that is processed in batches of up to 512 keys has a step between two batches",
 			"small scope: all unordered pairs and all unordered triples of 18 method instances as two / three goroutines with one call each, plus eight 3-goroutine mixes with <= 2 calls each (thorough: four 4-goroutine mixes); keys {a,b}; start states {} and {a:1}",
 			"race detection covers the locations the instrumenter probes: the entries field and the content of the map it refers to (two locations), in every explored schedule; callbacks given to Range/All/GetWithLock/Map yield while the lock is held",
 			"the RWMutex shim has no writer preference (a superset of Go's behaviours)",
